@@ -49,6 +49,7 @@ def check(rep, an, tier):
             seeds(rep, res, entry)
             isotropy(rep, res, entry)
             scale_free_decisions(rep, res, entry)
+            R.rule_block_cover(rep, res, entry)
             for ev in res.events("extremum"):
                 ini = ev.d.get("initial")
                 if ini is None or not center:
@@ -97,6 +98,21 @@ def check(rep, an, tier):
                                   and "X" not in x0.flat().data, where=ev.loc, construct="first argument of the reference call", entry=entry,
                                   config=res.config)
                 seeds(rep, res, entry)
+                for ev in res.events("row_filter"):
+                    if ev.fn.name != "compute_gamut" or "X" not in ev.d["base"].flat().data:
+                        continue
+                    ix = ev.d["idx"]
+                    rm, cm = ix.tag("row_mask"), ix.tag("cmp")
+                    if rm is not None:
+                        st = rm[0] == "nonzero_rows"
+                    elif cm is not None and cm[1].tag("rowsum_of") is not None and not (cm[2].known and cm[2].const == 0):
+                        st = False
+                    else:
+                        st = None
+                    rep.check("R-QTY", "only rows without any intensity are removed before the chromatic reduction", st, where=ev.loc,
+                              construct=ev.text(), entry=entry, config=res.config,
+                              msg="rows are dropped by comparing their total with a threshold (relative to the brightest row): a dim row that is a "
+                                  "vertex of the chromaticity hull disappears, so the metric is not invariant to the intensity of individual rows")
                 if metric == "width":
                     shared_generator(rep, res, entry)
     # ---- Jensen–Shannon: separate normalisation of both inputs
@@ -136,6 +152,13 @@ def check(rep, an, tier):
                  spec={"summaries": {"dreye.api.project:proj_P_for_hull": summary}}, config="flat cloud (projection returns points)")
     v = res.value.flat()
     scale_free_decisions(rep, res, "compute_volume")
+    for r_ in res.events("return"):
+        if len(r_.path) == 1 and r_.d["val"].flat().tag("pow_by_extent"):
+            rep.violated("R-QTY", "the volume of a flat cloud scales with the dimension of its affine span", where=r_.loc, construct=r_.text(),
+                         entry="compute_volume", config=res.config,
+                         msg=f"the returned extent is multiplied by a length scale raised to the AMBIENT dimension (extent "
+                             f"{'⊗'.join(r_.d['val'].flat().tag('pow_by_extent'))} of the input): for a flat cloud, whose hull is measured inside "
+                             f"its k-dimensional span, the result is no longer homogeneous of degree k")
     rets = [r for r in res.events("return") if len(r.path) == 1 and "projected#" in r.d["val"].flat().data | r.d["val"].flat().ctrl]
     deg = [r for r in rets if "projected#" in r.d["val"].flat().data]
     rep.check("R-QTY", "flat clouds: the extent is measured on the projected points", bool(deg), where=res.fn.loc(),
